@@ -178,6 +178,7 @@ func (u *Unmarshaler) Unmarshal(serialized []byte) (*Biscuit, error) {
 	}
 
 	symbols.Extend(authority.symbols)
+	symbolCounts := []int{symbols.Len()}
 
 	blocks := make([]*Block, len(container.Blocks))
 	for i, sb := range container.Blocks {
@@ -199,13 +200,15 @@ func (u *Unmarshaler) Unmarshal(serialized []byte) (*Biscuit, error) {
 		}
 		blocks[i] = block
 		symbols.Extend(blocks[i].symbols)
+		symbolCounts = append(symbolCounts, symbols.Len())
 	}
 
 	return &Biscuit{
-		authority: authority,
-		symbols:   symbols,
-		blocks:    blocks,
-		container: container,
+		authority:    authority,
+		symbols:      symbols,
+		blocks:       blocks,
+		container:    container,
+		symbolCounts: symbolCounts,
 	}, nil
 }
 
